@@ -7,14 +7,16 @@ ID = "C09"
 TITLE = "Extended games, hedging, cloning: closed forms, ordering, strong duality"
 LEVEL = "exploration"
 BUDGET = {"quick": 80, "thorough": 900}
-TECHNIQUE = "run-time-checked contracts on the real functions over a bounded domain (bounded stand-in)"
+ENGINES = ["E1-pyvc", "E2-frame", "E3-E4-rtc"]
+TECHNIQUE = "VCs from the real AST (z3): the parallel-repetition branch of ExtendedNonlocalGame.__init__ builds the product referee table (loop invariants over the question odometers, update_odometer by its proved contract); frame clauses by taint analysis; run-time-checked contracts on the real functions over a bounded domain (bounded stand-in) for every value"
 LEVEL_TEXT = (
     "Bounded. Extended games: unentangled_value is compared (>= and <= separately) with a brute force over all pairs of deterministic answer functions of the largest eigenvalue "
     "of the question-averaged referee operator; every NPA bound must dominate that brute-force value (an achieved value) and the see-saw lower bound, and be dominated by the non-signalling value. "
     "Hedging and cloning: every primal/dual return value must lie in a bracket [L, U] computed here from weak-duality certificates for the defining program "
     "max/min <Q, X> : Tr_out X = I, X >= 0 -- an explicitly feasible X (re-normalised so that the partial trace is exactly I) and an explicitly feasible Y "
     "(I (x) Y - Q checked by eigenvalues, repaired by a shift); plus primal == dual, max >= min, two repetitions vs. the single-shot optimum and the closed forms cos^2(pi/8), sin^2(pi/8), cos^4(pi/8), 0, 3/4, 9/16, 2/3, 1. "
-    "Tolerance 5e-4 for SDP-backed values. Nothing here is proved for all inputs."
+    "Tolerance 5e-4 for SDP-backed values. No value is proved for all inputs. Proved (E1-integer, reps = 2, 3 and all referee dimensions, answer and question counts): "
+    "ExtendedNonlocalGame(prob, V, reps) stores prob_mat = tensor(prob, reps) and a new table whose block at questions (i, j) is tensor_k V[..., x_k, y_k] with (x_k), (y_k) the base-X / base-Y digits of i / j."
 )
 RULE = (
     "Extended games: named games (BB84, CHSH, BB84 with relabelled answers) plus seeded random games over a fixed list of shapes (referee dim 2..3, answers 1..3, questions 1..3, unequal counts included), real and complex "
@@ -31,6 +33,7 @@ TRUSTED = [
     "quantum_value_lower_bound does not return its strategy, so that it is an achieved value is taken from its construction; it is only compared with the upper bounds",
     "SDP-backed return values are compared with absolute tolerance 5e-4",
 ]
+TRUSTED.append("E1-integer (constructor proof): update_odometer enters through its postcondition proved in C07 (instantiated at the fixed length, instantiation checked by z3); `tensor` is an opaque term (its contract: C16); numpy array contents are tracked by shape and by the slices stored, integers are mathematical")
 ASSUMPTIONS = TRUSTED
 
 TOL_SDP = 5e-4
@@ -146,6 +149,48 @@ def enlg_unent_le(p):
     exp, arg = _unent_brute(prob, V)
     if got > exp + TOL_SDP:
         raise Violation("unentangled_value = %.6f > brute-force maximum %.6f (shape (R,A,B,X,Y)=%s)" % (got, exp, _shape(V)))
+
+
+def _product_game(prob, V, reps):
+    """the reps-fold parallel repetition from the single-shot data: V(a1..ar, b1..br | x1..xr, y1..yr) = (x)_k V(ak, bk | xk, yk), prior the product"""
+    import numpy as np
+
+    R, _, A, B, X, Y = V.shape
+    prob_r = np.zeros((X**reps, Y**reps))
+    V_r = np.zeros((R**reps, R**reps, A**reps, B**reps, X**reps, Y**reps), dtype=V.dtype)
+    rng = [list(itertools.product(range(n), repeat=reps)) for n in (A, B, X, Y)]
+    for ix, xs in enumerate(rng[2]):
+        for iy, ys in enumerate(rng[3]):
+            pr = 1.0
+            for k in range(reps):
+                pr *= prob[xs[k], ys[k]]
+            prob_r[ix, iy] = pr
+            for ia, as_ in enumerate(rng[0]):
+                for ib, bs in enumerate(rng[1]):
+                    op = np.eye(1)
+                    for k in range(reps):
+                        op = np.kron(op, V[:, :, as_[k], bs[k], xs[k], ys[k]])
+                    V_r[:, :, ia, ib, ix, iy] = op
+    return prob_r, V_r
+
+
+def enlg_reps_unent(p):
+    """ExtendedNonlocalGame(prob, V, reps): unentangled value == brute-force maximum for the reps-fold product game built from the single-shot data"""
+    from toqito.nonlocal_games.extended_nonlocal_game import ExtendedNonlocalGame
+    from vt.contract import Violation
+
+    prob, V = _enlg_instance(p)
+    reps = p["reps"]
+    try:
+        g = ExtendedNonlocalGame(prob.copy(), V.copy(), reps)
+    except Exception as e:
+        raise Violation("ExtendedNonlocalGame(reps=%d) cannot be constructed for question counts (X, Y) = %s: %s: %s" % (reps, list(V.shape[4:]), type(e).__name__, str(e)[:120]))
+    got = _finite(g.unentangled_value(), "unentangled_value")
+    prob_r, V_r = _product_game(prob, V, reps)
+    exp, arg = _unent_brute(prob_r, V_r)
+    if abs(got - exp) > TOL_SDP:
+        raise Violation("unentangled_value of the %d-fold repetition = %.6f, brute force over the answer functions of the product game = %.6f (single-shot shape (R,A,B,X,Y)=%s)" % (reps, got, exp, _shape(V)))
+    return {"got": got, "brute": exp}
 
 
 def _shape(V):
@@ -561,6 +606,7 @@ CLAUSES = {
     "enlg.ns_ge_unent": enlg_ns_ge_unent,
     "enlg.qlb_le_ns": enlg_qlb_le_ns,
     "enlg.closed": enlg_closed,
+    "enlg.reps_unent": enlg_reps_unent,
     "hedge.max_ge_min": hedge_max_ge_min,
     "hedge.reps2": hedge_reps2,
     "hedge.closed": hedge_closed,
@@ -576,6 +622,7 @@ _FN = {
     "enlg.ns_ge_unent": "ExtendedNonlocalGame.nonsignaling_value",
     "enlg.qlb_le_ns": "ExtendedNonlocalGame.quantum_value_lower_bound",
     "enlg.closed": "ExtendedNonlocalGame",
+    "enlg.reps_unent": "ExtendedNonlocalGame.__init__/unentangled_value",
     "hedge.max_ge_min": "QuantumHedging",
     "hedge.reps2": "QuantumHedging",
     "hedge.closed": "QuantumHedging",
@@ -624,6 +671,11 @@ def cases(tier, seed):
         [3, 2, 2, 2, 2], [3, 2, 2, 1, 2], [2, 3, 3, 2, 2], [3, 3, 3, 2, 1],
         [2, 2, 3, 2, 2], [2, 3, 2, 2, 2], [2, 1, 2, 2, 2], [3, 2, 3, 1, 2], [2, 3, 2, 2, 1], [2, 2, 1, 2, 3], [3, 3, 2, 2, 2],
     ]
+    # parallel repetition: the referee operators of the repeated game are built by the constructor (question / answer odometers)
+    for j, sh in enumerate([[2, 2, 2, 1, 2], [2, 2, 2, 2, 1], [2, 2, 2, 2, 2], [2, 2, 1, 1, 3], [2, 1, 2, 3, 1]]):
+        for s in range(3 if thorough else 1):
+            qq = "X=Y" if sh[3] == sh[4] else "X!=Y"
+            add("enlg.reps_unent", dict(shape=sh, seed=seed + 31 * j + s, reps=2), "enlg.reps/%s" % qq)
     nseeds = 12 if thorough else 2
     for i, sh in enumerate(shapes):
         R, A, B, X, Y = sh
@@ -734,6 +786,17 @@ def cases(tier, seed):
 
 # =============================================================================================
 # frame coverage shared by all properties (E2 obligations for every public function of the anchor files + run-time frame cases)
+# =============================================================================================
+# the constructor's parallel-repetition branch (E1-integer, contracts/reps_ctor.py): the referee operators of the repeated game
+# are the tensor products of the single-shot operators at the digits of the question indices, for all axis sizes
+# =============================================================================================
+def prove(tier, seed):
+    from props.reps_prove import prove_reps
+
+    replay = [dict(c, function="ExtendedNonlocalGame.__init__") for c in cases("quick", seed) if c["clause"] == "enlg.reps_unent"]
+    return prove_reps("toqito/nonlocal_games/extended_nonlocal_game.py", "ExtendedNonlocalGame.__init__", 4, replay, "c09r", tier)
+
+
 # =============================================================================================
 from props import frame_all as _fa  # noqa: E402
 from props.frame_common import frame_generic as _fg, frame_object as _fo  # noqa: E402
